@@ -25,6 +25,7 @@ CLAIMED = {
          "Theorem C03_model_correct: for all integers, the exact-arithmetic model of calculate_lm (branch structure, reversal tick, quadratic solve with both ceilings via the integer square root, "
          "discarding of roots before the reversal, legacy mirror form) returns an answer that passes lm_check whenever that answer keeps the request in the property's domain "
          "(accumulator in [0,2^31) or clear, per-tick |rate| <= 2^31-1 through the reported duration); proved for forward-starting moves in four cases and for backward-starting moves through the mirror symmetry of model and specification. "
+         "Theorems C03_rounding / C03_root_rounding: with the square root of the discriminant, the sums -b +- sqrt, the divisions by 2a and the constant-rate division rounded, the model equals the exact one for every request within the firmware argument ranges, for every monotone rounding operator that fixes 103-bit numbers and every monotone non-negative square root exact on squares of binary fractions (no error bound needed; that mpmath provides such operators is trusted). "
          "Theorem C03_checker_iff_spec: for all integers lm_check (closed-form total, closed-form count of steps taken around the single sign change of the rate) holds of an output "
          "iff the output is the first tick at which the steps taken under the C01 recurrence reach the budget, with that tick's position and accumulator; C03_consequence: the accumulator "
          "is in [0,2^31) and the timed-move recurrence at the reported duration reproduces position and accumulator; C03_invalid. calculate_lm / moveTimeLM outputs on valid moves "
